@@ -800,7 +800,7 @@ def run_programs(ck, progs, scratch, label):
         plan.append(e)
 
     nkeval = os.environ.get("VERIF_C09_NKEVAL") or core.harness_bin("nkeval")   # override: experiments only
-    rc1, rout, e1 = core.run_sharded(nkeval, [], b.rust, timeout=3000)
+    rc1, rout, e1 = core.run_sharded(nkeval, [], b.rust, timeout=6000)
     rc2, mout, e2 = core.run_sharded(ck.model_exe, [], b.model, timeout=3000) if b.model else (0, [], "")
     if rc1 or rc2:
         ck.obligation("correspondence-run:" + label, "internal", False, "rc=%s/%s %s %s" % (rc1, rc2, e1[-800:], e2[-800:]))
@@ -959,7 +959,7 @@ def run(ck):
         if os.environ.get("VERIF_C09_N"):
             n = int(os.environ["VERIF_C09_N"])       # for experiments only; the tiers use the fixed counts
         progs += make_programs(ck, n, 9)
-        chunk = 2500
+        chunk = 1500
         for i in range(0, len(progs), chunk):
             run_programs(ck, progs[i:i + chunk], scratch, "chunk%d" % (i // chunk))
             for f in os.listdir(scratch):
